@@ -211,7 +211,8 @@ Proof. intros s act deact i H. apply (C06Keep.process_state_ctx_only (act ++ dea
 (* ---- non-vacuity *)
 
 Definition ex_view (act : list nat) (cl : list N) (qt : N) (running : bool) : view :=
-  {| v_active := act; v_clock := cl; v_qtick := qt; v_running := running; v_window := false |}.
+  {| v_active := act; v_clock := cl; v_qtick := qt; v_running := running; v_window := false;
+     v_applied := false |}.
 
 Definition ex_a0 : nat -> bool := fun _ => false.
 Definition ex_pre : list sevent := [EProcess [0] [] [0; 0; 0]%N [1; 0; 0]%N 2%N].
